@@ -94,6 +94,8 @@ def run(fb, rep, tier):
     types(fb, rep)
     objective(fb, rep)
     unscaled_entry(fb, rep, opt)
+    accepted_has_objective(fb, rep)
+    farkas_sense(fb, rep)
 
 
 def flags(fb, rep, opt):
@@ -245,3 +247,57 @@ def unscaled_entry(fb, rep, opt):
         ok, path = g.must_pass(undo, to=b)
         rep.check(ok, 'R03.5', '_optimizeRational|%s@%d' % (n.short, n.l), '%s:%d' % (opt.file, n.l), 'unscaleLPandReloadBasis() lies on every path to this step when _isRealLPScaled',
                   '%s is reached with _isRealLPScaled still true (no unscaleLPandReloadBasis on the path, lines %s): the exact solver reloads and shifts a scaled LP as if it were the user\'s' % (n.short, g.path_lines(path)[:8] if path else ''))
+
+
+def accepted_has_objective(fb, rep):
+    """R03.6: in every solve routine of the exact solver that computes the objective value behind its refinement loop, the point where a
+    solution is accepted (`if(primalFeasible && dualFeasible)` true arm, or the loop exit that follows _isRefinementOver) leads to that
+    computation on every normal path - an accepted solution never leaves the function with a stale objective value."""
+    rep.rule('R03.6', 'an accepted solution reaches the objective computation of its solve routine on every path (no early return past it)', floor=2)
+    k = 0
+    for f in fb.methods_of(C):
+        if not f.file.endswith('solverational.hpp') or not f.nodes:
+            continue
+        objs = [n for n in f.nodes if n.k in ('CXXOperatorCallExpr', 'BinaryOperator') and n.o == '=' and render(n.kids[0] if n.k == 'BinaryOperator' else n.args()[0]).endswith('._objVal')
+                and 'maxObj()' in render(n.kids[1] if n.k == 'BinaryOperator' else n.args()[1])]
+        if not objs:
+            continue
+        accepts = [n for n in f.nodes if n.k == 'IfStmt' and re.sub(r'[() ]', '', render(n.kid('cond'))) == 'primalFeasible&&dualFeasible']
+        if not accepts:
+            continue
+        # a solution that is being accepted has been stored as primal and dual feasible
+        g = Graph(f, Assume(atoms={'sol._isPrimalFeasible': True, 'sol._isDualFeasible': True, 'primalFeasible': True, 'dualFeasible': True}))
+        isobj = lambda x: any(x.i == o.i for o in objs)
+        for a in accepts:
+            k += 1
+            th = a.kid('then')
+            first = None
+            for x in th.walk():
+                b = g.block_of(x)
+                if b is not None:
+                    first = b
+                    break
+            if first is None:
+                rep.unrec('R03.6', '%s|accept@%d' % (f.short, a.l), '%s:%d' % (f.file, a.l), 'then-arm has no CFG block')
+                continue
+            ok, path = g.must_pass(isobj, start=first)
+            rep.check(ok, 'R03.6', '%s|accept@%d' % (f.short, k), '%s:%d' % (f.file, a.l), 'the objective computation lies on every path from the acceptance to the exit',
+                      '%s accepts the solution (tolerances reached) and can leave without computing sol._objVal (lines %s): objValueRational() then reports a stale value' % (f.short, g.path_lines(path)[:8] if path else ''))
+    if k < 2:
+        raise AnalysisBroken('R03.6: only %d acceptance points found in routines that compute the objective' % k)
+
+
+def farkas_sense(fb, rep):
+    """R03.7: dual multipliers follow the sign convention of the objective sense; the Farkas proof handed to the user does not.  Where
+    _untransformFeasibility turns the duals of the auxiliary problem into the Farkas vector, a sense-guarded negation follows."""
+    rep.rule('R03.7', 'the Farkas vector taken from the duals of the auxiliary feasibility problem is negated for maximisation', floor=1)
+    f = fb.one(C + '::_untransformFeasibility')
+    asg = [n for n in f.nodes if n.k in ('CXXOperatorCallExpr', 'BinaryOperator') and n.o == '=' and render(n.kids[0] if n.k == 'BinaryOperator' else n.args()[0]).endswith('._dualFarkas')
+           and render(n.kids[1] if n.k == 'BinaryOperator' else n.args()[1]).endswith('._dual')]
+    if not asg:
+        raise AnalysisBroken('R03.7: _untransformFeasibility does not assign the Farkas vector from the duals')
+    for a in asg:
+        neg = [x for x in f.nodes if x.k in ('CXXOperatorCallExpr', 'CompoundAssignOperator') and x.o == '*=' and render(x.args()[0] if x.k == 'CXXOperatorCallExpr' else x.kids[0]).endswith('._dualFarkas')
+               and x.i > a.i and any(y.k == 'IfStmt' and 'OBJSENSE_MAXIMIZE' in render(y.kid('cond')) for y in f.ancestors(x))]
+        rep.check(bool(neg), 'R03.7', '_untransformFeasibility|_dualFarkas = _dual', '%s:%d' % (f.file, a.l), 'negated under OBJSENSE_MAXIMIZE',
+                  'the Farkas vector is copied from the dual multipliers without a sense-dependent negation: for maximisation problems it comes back with the opposite signs and fails the Farkas test')
